@@ -106,6 +106,16 @@ pub fn request_with_timeout(port: u16, raw: &[u8], timeout: Duration) -> Result<
 	let addr = SocketAddr::from(([127, 0, 0, 1], port));
 	let mut stream = TcpStream::connect_timeout(&addr, Duration::from_secs(3)).map_err(|e| TransportError::Connect(e.to_string()))?;
 	let _ = stream.set_nodelay(true);
+	// Close with a reset instead of FIN: the harness closes first (as soon as the response is
+	// complete), and a campaign of millions of requests would otherwise park every client port in
+	// TIME_WAIT for a minute and run the machine out of ephemeral ports.
+	{
+		use std::os::fd::AsRawFd;
+		let l = libc::linger { l_onoff: 1, l_linger: 0 };
+		unsafe {
+			libc::setsockopt(stream.as_raw_fd(), libc::SOL_SOCKET, libc::SO_LINGER, &l as *const _ as *const libc::c_void, std::mem::size_of::<libc::linger>() as libc::socklen_t);
+		}
+	}
 	let _ = stream.set_read_timeout(Some(Duration::from_millis(250)));
 	let _ = stream.set_write_timeout(Some(timeout));
 	let is_head = raw.starts_with(b"HEAD ");
@@ -299,7 +309,12 @@ pub enum Exchange {
 fn free_port() -> u16 {
 	use std::sync::Mutex;
 	static USED: Mutex<Vec<u16>> = Mutex::new(Vec::new());
-	for _ in 0..2000 {
+	for attempt in 0..20_000u32 {
+		if attempt > 0 && attempt % 200 == 0 {
+			// the kernel keeps handing out the same few ports: the ephemeral range is nearly used up
+			// (sockets in TIME_WAIT, other campaigns on this machine); wait for ports to come back
+			std::thread::sleep(std::time::Duration::from_secs(2));
+		}
 		match TcpListener::bind("127.0.0.1:0").and_then(|l| l.local_addr()) {
 			Ok(a) => {
 				let mut g = USED.lock().unwrap();
